@@ -29,6 +29,9 @@ ASSUMPTIONS = [
     "nulls: NaN/NaT/None in NumPy and pandas-NumPy containers, Arrow nulls in Arrow-backed ones",
     "categorical keys are compared as label -> value mappings (their order rule is C11's business)",
     "int64 tables hold values near 2**54 (sums stay below 2**63)",
+    "mixed-dtype frames: 2-3 columns out of {int64, float64, float32, int32, int16, uint8, bool, "
+    "datetime64[ns]} as list / dict / pandas frame / polars frame on NumPy, chunk-wise and Arrow-chunked "
+    "keys; every column compared with the column reduced alone",
 ]
 
 RED = ("size", "count", "sum", "mean", "min", "max", "first", "last")
@@ -313,6 +316,126 @@ class ContainerSpace(Subspace):
                     break
 
 
+class FrameSpace(Subspace):
+    """Several value columns of DIFFERENT dtypes given together (list, dict, pandas / polars frame)
+    on every key representation: each column of the result must carry the numbers and the dtype of
+    that column reduced alone with NumPy keys."""
+    shard = 12
+    COLSETS = {
+        "i8+f8": ("i8big", "f8"),
+        "f8+i4": ("f8", "i4"),
+        "u1+f4+i8": ("u1", "f4", "i8big"),
+        "M8+f8": ("M8[ns]", "f8"),
+        "b+i2": ("b", "i2"),
+    }
+    OPS = ("count", "sum", "mean", "min", "max", "first", "last", "cummax", "cumsum", "max_t")
+
+    def __init__(self, name, G, lo, hi, colset, seed=0):
+        self.name, self.colset, self.seed = name, colset, seed
+        alpha = row_alphabet(G, 1, [True], True, False)
+        self.ws = W.WordSpace(alpha, lo, hi)
+        self.warm_key = f"frame-{colset}"
+
+    def size(self):
+        return len(self.ws)
+
+    def case(self, i):
+        return dict(w=[[list(r[0])] + list(r[1:]) for r in self.ws.at(i)], colset=self.colset,
+                    seed=self.seed)
+
+    def run(self, case):
+        import polars as pl
+        from groupby_lib import GroupBy
+
+        res = Result()
+        dts = self.COLSETS[case["colset"]]
+        d = gbh.Data(case["w"], ("float",), "f8", case["seed"])
+        n = d.n
+        res.nontrivial = n >= 2
+        cols = []
+        for j, dt in enumerate(dts):
+            xs = d.xs if C.can_null(dt) else [1] * n
+            arr, _ = C.make_values(xs, dt, case["seed"] + j)
+            cols.append(arr)
+        names = [f"c{j}" for j in range(len(cols))]
+        seams = env.seams()
+        sched.set_schedule(sched.Schedule())
+        karr = np.asarray(d.keys[0])
+
+        def fn(name):
+            if name == "max_t":
+                return lambda g, V: g.max(V, transform=True)
+            return lambda g, V: getattr(g, name)(V)
+
+        def okay(name, dt):
+            k = np.dtype(C._np_name(dt)).kind
+            if k == "M":
+                return name not in ("sum", "mean", "cumsum")
+            if k == "b":
+                return name not in ("cumsum",)
+            return True
+
+        keyreps = [("numpy keys", dict(), lambda: karr),
+                   ("chunk-wise keys", dict(threshold=1, fanout=2), lambda: karr)]
+        if n >= 2:
+            for comp in W.compositions(n, 3, 2):
+                keyreps.append((f"pa_chunked keys {comp}", dict(),
+                                lambda comp=comp: to_container(karr, "pa_chunked", comp)))
+        conts = [("list", lambda: list(cols)),
+                 ("dict", lambda: dict(zip(names, cols))),
+                 ("DataFrame", lambda: pd.DataFrame(dict(zip(names, cols)))),
+                 ("polars", lambda: pl.DataFrame(dict(zip(names, cols))))]
+        for name in self.OPS:
+            use = [j for j, dt in enumerate(dts) if okay(name, dt)]
+            if len(use) < 2:
+                continue
+            single = {}
+            seams.set(executor=sched.NAMESPACE)
+            for j in use:
+                res.execs += 1
+                single[j] = gbh.call(lambda: fn(name)(GroupBy(karr), cols[j]))
+            if any(o.raised for o in single.values()):
+                continue  # single-column behaviour is C01/C12-single's business
+            for klabel, seam, mk in keyreps:
+                for clabel, mv in conts:
+                    if clabel == "polars" and any(np.dtype(C._np_name(dts[j])).kind == "M" for j in use):
+                        pass
+                    seams.set(executor=sched.NAMESPACE, **seam)
+                    res.execs += 1
+                    sub = [cols[j] for j in use]
+                    subn = [names[j] for j in use]
+                    V = {"list": lambda: list(sub), "dict": lambda: dict(zip(subn, sub)),
+                         "DataFrame": lambda: pd.DataFrame(dict(zip(subn, sub))),
+                         "polars": lambda: pl.DataFrame(dict(zip(subn, sub)))}[clabel]()
+                    o = gbh.call(lambda: fn(name)(GroupBy(mk()), V))
+                    tag = f"{name} [{klabel}, values={clabel} {case['colset']}]"
+                    if o.raised:
+                        res.fail("total", f"{tag}: raised {o.raised} (each column alone works)")
+                        continue
+                    ocols = list(o.values)
+                    if len(ocols) != len(use):
+                        res.fail("values", f"{tag}: {len(ocols)} result columns for {len(use)} inputs")
+                        continue
+                    for pos, j in enumerate(use):
+                        b = single[j]
+                        bcol = next(iter(b.values))
+                        if o.labels != b.labels:
+                            res.fail("values", f"{tag}: labels {o.labels} vs {b.labels} (column alone)")
+                            break
+                        got, want = o.values[ocols[pos]], b.values[bcol]
+                        if len(got) != len(want) or not all(gbh.veq(x, y) for x, y in zip(got, want)):
+                            res.fail("values", f"{tag}: column {pos} ({dts[j]}): {got} vs {want} "
+                                               f"(the column alone, NumPy keys)")
+                            break
+                        fo, fb = dtype_family(o.dtypes[ocols[pos]]), dtype_family(b.dtypes[bcol])
+                        if clabel != "polars" and fo != fb:
+                            res.fail("dtype", f"{tag}: column {pos} ({dts[j]}) came back as "
+                                              f"{o.dtypes[ocols[pos]]}, alone it is {b.dtypes[bcol]}")
+                            break
+        seams.reset()
+        return res
+
+
 def subspaces(tier, seed):
     q = tier == "quick"
     S = ContainerSpace
@@ -333,4 +456,10 @@ def subspaces(tier, seed):
     for at in ("int64", "int32", "uint8"):
         sp.append(S(f"arrow-nullable-{at}-values-n1to3", 2, 1, 3, key_conts=(),
                     val_conts=("pa_array", "pa_chunked", "pd_arrow", "polars"), arrow_int=at, seed=seed))
+    # several value columns of different dtypes at once, every key representation
+    for cs in FrameSpace.COLSETS:
+        if q and cs in ("f8+i4", "b+i2"):
+            continue
+        hi = 3 if (q or cs not in ("i8+f8", "f8+i4")) else 4
+        sp.append(FrameSpace(f"frames-{cs}-n1to{hi}", 2, 1, hi, cs, seed=seed))
     return sp
